@@ -252,3 +252,5 @@ import contracts.c02c  # noqa: E402,F401  (process_aggregate_kwargs)
 import contracts.c02d  # noqa: E402,F401  (resolve_params: top-level spreads)
 
 import contracts.c02e  # noqa: E402,F401  (one atom: TagValuePart.serialize, TagValue.compile / resolve)
+
+import contracts.c02f  # noqa: E402,F401  (DynamicFilterExpression: nested template strings)
